@@ -855,6 +855,10 @@ def run(ctx, rep):
     from sa import axes
     rep.rule('C09.A', "no element-wise operation in the birth-death densities combines a value that keeps the trailing axis ([S, 1]: origin, rates) with one that dropped it ([S]: an indexed height)")
     axes.check_event_axes(ctx, rep, 'C09.A', ['torchtree.evolution.bdsk', 'torchtree.evolution.birth_death'], 12)
+    from props import c10
+    from sa.report import RuleProxy
+    nb = c10.check_whole_reductions(ctx, RuleProxy(rep, 'C09.A', 'reductions::'), only=lambda mname: mname in ('torchtree.evolution.bdsk', 'torchtree.evolution.birth_death'))
+    rep.ok('C09.A', 'reductions::birth-death::scanned', '', {'reductions_without_axis_classified': nb})
     from sa import dtypes
     rep.rule('C09.T', "times / dates given as Python numbers enter the computation at the requested precision: a tensor built from them without a dtype (torch's default float32) is neither computed with nor converted afterwards")
     dtypes.check_default_precision(ctx, rep, 'C09.T', ['torchtree.evolution.bdsk', 'torchtree.evolution.birth_death'], 1)
